@@ -60,3 +60,18 @@ package ice
 // The checklist and its index are replaced wholesale only when a generation ends.
 //@ enumerate C06 stores ice.Agent.checklist in createAgentBase, (*Agent).updateConnectionState, (*Agent).addPair, (*Agent).Restart
 //@ enumerate C06 stores ice.Agent.pairsByID in createAgentBase, (*Agent).updateConnectionState, (*Agent).Restart
+
+// The remote IP filter is asked about the candidate's RESOLVED transport address (what
+// packets will actually be sent to), and a rejected or unparsable address is refused.
+//@ noeffect ice.Agent.remoteIPFilter
+//@ func (*Agent).shouldAcceptRemoteCandidate
+//@   props C06
+//@   opt nosafety
+//@   ghostvar asked bool = false
+//@   ghostvar verdict bool = false
+//@   site call addr#1 assert of-this-candidate: recv == cand
+//@   site call parseAddr#1 assert the-resolved-address-is-what-gets-filtered: true
+//@   site call remoteIPFilter#1 ghost asked := true
+//@   site call remoteIPFilter#1 ghost verdict := result
+//@   ensures no-filter-accepts: a.remoteIPFilter == nil ==> result
+//@   ensures accepted-only-if-the-filter-kept-the-resolved-address: a.remoteIPFilter != nil && result ==> asked && verdict
